@@ -28,4 +28,4 @@ ASSUMPTIONS = ["full_moon::TokenType::spaces/tabs produce exactly n spaces / tab
 
 
 def run(ctx):
-    return [r_nl.rule_nl(ctx, "C10"), r_raw.rule_raw(ctx, "C10"), r_raw.rule_sanitiser(ctx, "C10"), r_guard.rule_guard(ctx, "C10"), r_layout.rule_builder(ctx, "C10"), p_c07.rule_print(ctx, "C10"), r_skip.rule_toggle(ctx, "C10")]
+    return [r_nl.rule_nl(ctx, "C10"), r_raw.rule_raw(ctx, "C10"), r_raw.rule_sanitiser(ctx, "C10"), r_guard.rule_guard(ctx, "C10"), r_layout.rule_builder(ctx, "C10"), p_c07.rule_print(ctx, "C10"), r_skip.rule_toggle(ctx, "C10"), r_layout.rule_closure_raw(ctx, "C10")]
